@@ -247,7 +247,10 @@ def check_memory_budget(P, R):
             ok = all(s in dn or gi.must_pass(s, cn, dn) for (s, lab) in cn.succ if lab != 'exc')
         R.ob('C13.e', fi, c, ok, text='budget lowered by what the field read', detail='' if ok else
              'the in-memory budget is not reduced by the bytes each field consumed: n fields may load n * threshold bytes')
-    # _get_body_string
+    check_get_body_string(P, R, 'C13.e')
+
+
+def check_get_body_string(P, R, rid):
     fs = P.func(f'{BM}:BodyMixin._get_body_string')
     gs, rs = fs.cfg, fs.rd
     reads = [c for c in walk_shallow(fs.node) if isinstance(c, ast.Call) and (
@@ -268,7 +271,7 @@ def check_memory_budget(P, R):
         for n in pre:
             reach = gs.reachable_from(T.succ_by_label(n, 'true'))
             okp = okp or (cn not in reach and gs.exit not in reach)
-        R.ob('C13.e', fs, c, okp, text='declared length above the threshold refused before reading', detail='' if okp else
+        R.ob(rid, fs, c, okp, text='declared length above the threshold refused before reading', detail='' if okp else
              'a declared Content-Length above the threshold is not refused before the body is read into memory')
         # unknown length: read threshold + k, k >= 1
         if isinstance(a, ast.Name):
@@ -285,7 +288,7 @@ def check_memory_budget(P, R):
                     oku = False
                     det = (f'for an unknown length only `{short(v)}` bytes are read, so the following `len(data) > {thr}` test can never '
                            f'fire: an oversized chunked form is silently truncated and accepted')
-            R.ob('C13.e', fs, c, oku, text=f'unknown length -> read {thr} + 1', detail='' if oku else det,
+            R.ob(rid, fs, c, oku, text=f'unknown length -> read {thr} + 1', detail='' if oku else det,
                  why='form text larger than the threshold is refused rather than loaded', key_extra='unknown')
         # post test
         res = T.assigned_name_of_call(c)
@@ -295,9 +298,9 @@ def check_memory_budget(P, R):
         for n in post:
             reach = gs.reachable_from(T.succ_by_label(n, 'true'))
             okq = okq or gs.exit not in reach
-        R.ob('C13.e', fs, c, okq, text=f'len(data) > {thr} refused after reading', detail='' if okq else
+        R.ob(rid, fs, c, okq, text=f'len(data) > {thr} refused after reading', detail='' if okq else
              'data longer than the threshold is not refused after the read')
     # the refusals go through _raise(BodySizeError(), RequestError)
     for r in [n for n in walk_shallow(fs.node) if isinstance(n, ast.Raise)]:
         ok = isinstance(r.exc, ast.Call) and dotted(r.exc.func) == 'self._raise' and r.exc.args and 'BodySizeError' in src(r.exc.args[0])
-        R.ob('C13.e', fs, r, ok, detail='' if ok else 'the refusal is not raised through self._raise(BodySizeError(), ...) -> not a 413')
+        R.ob(rid, fs, r, ok, detail='' if ok else 'the refusal is not raised through self._raise(BodySizeError(), ...) -> not a 413')
